@@ -12,7 +12,7 @@ cp $out/zz_demo_test.go .
 race=""; grep -q '"-race"\|-race' $out/meta.json && race="-race"
 go test -vet=off -count=1 $race -timeout 10m -run "TestDemo" . > /tmp/seed2/$id.$v.demo_with.log 2>&1; echo "demo-with-patch exit=$? (expect non-zero)"
 rm zz_demo_test.go
-flock /tmp/seed2/confirm.lock go test -vet=off -count=1 -timeout 25m ./... > /tmp/seed2/$id.$v.suite_with.log 2>&1; echo "suite-with-patch exit=$? (expect 0)"
+flock /tmp/seed2/suite0.lock flock /tmp/seed2/suite1.lock flock /tmp/seed2/confirm.lock go test -vet=off -count=1 -timeout 25m ./... > /tmp/seed2/$id.$v.suite_with.log 2>&1; echo "suite-with-patch exit=$? (expect 0)"
 git checkout -q -- .
 cp $out/zz_demo_test.go .
 go test -vet=off -count=1 $race -timeout 10m -run "TestDemo" . > /tmp/seed2/$id.$v.demo_without.log 2>&1; echo "demo-without-patch exit=$? (expect 0)"
